@@ -19,6 +19,7 @@ use tokio::sync::MutexGuard;
 #[cfg_attr(feature = "send-sync-storage", async_trait)]
 impl KeyIdStorage for StrongholdStorage {
   async fn insert_key_id(&self, method_digest: MethodDigest, key_id: KeyId) -> KeyIdStorageResult<()> {
+    self.ensure_unlocked().await?;
     let stronghold = self.get_stronghold().await;
     let client = get_client(&stronghold)?;
     let store = client.store();
@@ -49,6 +50,7 @@ impl KeyIdStorage for StrongholdStorage {
   }
 
   async fn get_key_id(&self, method_digest: &MethodDigest) -> KeyIdStorageResult<KeyId> {
+    self.ensure_unlocked().await?;
     let stronghold = self.get_stronghold().await;
     let store = get_client(&stronghold)?.store();
     let method_digest_pack: Vec<u8> = method_digest.pack();
@@ -65,6 +67,7 @@ impl KeyIdStorage for StrongholdStorage {
   }
 
   async fn delete_key_id(&self, method_digest: &MethodDigest) -> KeyIdStorageResult<()> {
+    self.ensure_unlocked().await?;
     let stronghold = self.get_stronghold().await;
     let store = get_client(&stronghold)?.store();
     let key: Vec<u8> = method_digest.pack();
